@@ -112,6 +112,21 @@ class BPTerms:
             if m == 'project' and e.args and any(k.arg == 'agg' and isinstance(k.value, ast.Constant) and k.value.value == 'logsumexp'
                                                   for k in e.keywords):
                 return ('lse', recv, ('onto', self.term(e.args[0])))
+        if isinstance(e, ast.Call) and isinstance(e.func, ast.Name) and e.func.id in ('list', 'tuple') and len(e.args) == 1:
+            return self.term(e.args[0])
+        if isinstance(e, (ast.ListComp, ast.GeneratorExp)) and len(e.generators) == 1 and len(e.generators[0].ifs) == 1 \
+                and isinstance(e.generators[0].target, ast.Name) and U(e.elt) == e.generators[0].target.id:
+            # [a for a in i if a not in S]: the attributes of clique i (= the domain of beliefs[i]) outside S
+            g = e.generators[0]
+            t = g.ifs[0]
+            neg = False
+            if isinstance(t, ast.UnaryOp) and isinstance(t.op, ast.Not):
+                t, neg = t.operand, True
+            if isinstance(t, ast.Compare) and len(t.ops) == 1 and U(t.left) == g.target.id and isinstance(t.ops[0], (ast.In, ast.NotIn)):
+                outside = isinstance(t.ops[0], ast.NotIn) != neg
+                it = self.term(g.iter)
+                if outside and it[0] == 'name':
+                    return ('invert', ('dom', ('belief', it)), self.term(t.comparators[0]))
         if isinstance(e, ast.BinOp) and isinstance(e.op, ast.Sub):
             return ('sub', self.term(e.left), self.term(e.right))
         if isinstance(e, ast.IfExp):
